@@ -80,6 +80,10 @@ def mixed_interp_doc():
     data(); bar(2)
     interp(['null', 'keysig', 'clef', 'null'])
     data()
+    # syllables written with dots only: text, not null tokens, also when they are all that a filter leaves of their line (round 6, C05_r6_1 / C13_r6_1)
+    drows = [r for r in rows if r['rk'] == 'data']
+    for r, t in zip(drows, ['...', '..', 'la']):
+        r['cells'][3] = {'k': 'other', 'kind': 'lyrics', 'text': t}
     rows.append({'kind': 'cells', 'rk': 'term', 'cells': [gen.op_cell('*-') for _ in hs], 'live': live})
     return {'headers': hs, 'rows': rows, 'profile': 'mixed-interp'}
 
@@ -94,6 +98,7 @@ def explore(ctx, depth):
     fixed = docrun.make_cases(ctx, 3 if depth == 'quick' else 8, max_measures=3)
     fixed += docrun.make_cases(ctx, 0, docs=[echo_doc(), mixed_interp_doc()])
     ctx.rng = save
+    docrun.reuse_objects(ctx, fixed, steps=36, ranges=False)
     combos, seen = [], set()
 
     def add(inc, exc, enc):
